@@ -32,6 +32,17 @@ class Unpicklable(object):
         return isinstance(other, Unpicklable)
 
 
+NAN = float('nan')      # ONE object per process (like math.nan): containers find it by identity
+
+
+class F64(float):
+    """a float subclass (what numpy.float64 is): equal to, hashed and printed like the float it wraps"""
+    __slots__ = ()
+
+    def __reduce__(self):
+        return (F64, (float(self),))
+
+
 def _has_mainthing():
     import sys
     return getattr(sys.modules.get('__main__'), 'MainThing', None) is not None
@@ -102,6 +113,8 @@ def enc(v):
                 return {'$big': name}
     if v is None or isinstance(v, (bool, int, str)):
         return v
+    if type(v) is F64:
+        return {'$F': float(v)}
     if isinstance(v, float):
         if math.isinf(v) or math.isnan(v):
             return {'$f': repr(v)}
@@ -154,7 +167,9 @@ def dec(j):
         if '$fs' in j:
             return frozenset(dec(x) for x in j['$fs'])
         if '$f' in j:
-            return float(j['$f'])
+            return NAN if j['$f'] == 'nan' else float(j['$f'])
+        if '$F' in j:
+            return F64(j['$F'])
         if '$big' in j:
             return big(j['$big'])
         if '$deep' in j:
